@@ -288,8 +288,9 @@ def _free_names(node: ast.AST, bound: frozenset = frozenset()) -> set:
 
 class _rewrite_captured_vars(ast.NodeTransformer):
     def __init__(self, cv: inspect.ClosureVars):
-        self._lookup_dict: Dict[str, Any] = dict(cv.nonlocals)
-        self._lookup_dict.update(cv.globals)
+        # A variable of an enclosing function hides a module global of the same name
+        self._lookup_dict: Dict[str, Any] = dict(cv.globals)
+        self._lookup_dict.update(cv.nonlocals)
         self._ignore_stack = []
 
     def visit_Name(self, node: ast.Name) -> Any:
